@@ -350,7 +350,7 @@ func c17Run(w *core.W) {
 	}
 	st := &state.Search{W: w, Name: "enumscanner", Symbols: enumSymbols, MaxDepth: depth, MaxLen: 64,
 		Key:   func(p []byte) (string, int, bool) { return enum.VerifKeyAfter(p, false) },
-		Check: func(in []byte) { c17Accept(w, in, "state") }}
+		Check: func(in []byte) { c17Accept(w, in, "state") }, Complete: ref.JSONCompletion}
 	st.Run()
 	// number spellings: every list of <= 3 entries over the spellings of a few
 	// numbers (trailing zeros, zero fraction, sign of zero, the same digits as a string)
